@@ -1,15 +1,17 @@
 """U-PSPAN (C13 "diagnostics are well located") - the SPAN BOOKKEEPING of the first-generation parser src/alpha/parser.rs: a uniform
-postcondition (spec/u_pspan_spec.rs: node_at / extends_loc / err_at) over the EXPRESSION LAYER.
-VERIFIED here (real text): the cursor (pop_front, start_location_span, location_of_span, peek, consume, extract, extract_identifier),
-  parse_expression, parse_addition, parse_rest_of_bitwise_expression, parse_rest_of_bitshift_operation, parse_multiplication,
-  parse_singular_expression, parse_unary_expression, parse_arguments, parse_body_of_structural, parse_addressed_reference,
-  parse_reference, parse_rest_of_reference; termination by (remaining tokens, rank).
-ASSUMED here (real text sliced, external body, the uniform contract assumed):
-  parse_primary_expression  its body under the uniform location clauses exhausts the resource limit (rlimit 150 tried, with and without the C09
-                            clauses, with explicit composition hints); U-PLIT keeps verifying the same text under its C09 literal clauses
-  parse_rest_of_array       verifies alone (verus --verify-function, rlimit 30) but exhausts the limit in the whole-file run
-  parse_wellformed_type     the type layer (prelude/pspan_callees.rs); find_builtin; i128::unsigned_abs
-NOT reached: types, statements (incl. the one Tokens::with_reservation site), declarations, parse().
+postcondition (spec/u_pspan_spec.rs: node_at / extends_loc / err_at) over the expression layer, the type layer and part of the statement
+layer.  Three units share contracts/u_pspan.vc, the spec and this generator (build_with): each verifies some functions on the real text
+and takes the others as external bodies with the SAME contract text, so that the units close each other's assumptions by matching text:
+  U-PSPAN   the cursor, parse_expression, parse_addition, parse_rest_of_bitwise_expression, parse_rest_of_bitshift_operation,
+            parse_multiplication, parse_singular_expression, parse_unary_expression, parse_arguments, parse_body_of_structural,
+            parse_addressed_reference, parse_reference, parse_rest_of_reference, parse_wellformed_type, parse_inner_type,
+            parse_comparison, parse_rest_of_block
+  U-PSPAN2  parse_primary_expression, parse_rest_of_array          U-PSPAN3  parse_statement
+(the many-armed functions verify only with the quantified definitions `ordered` / `tokens_wf` hidden in their bodies and lemma calls
+per arm; together with everything else they exceed a minute, hence the split).  Termination by (remaining tokens, rank).
+NOT reached: parse_function_body, declarations, parse().  Trusted: find_builtin, i128::unsigned_abs, ValueType::is_wellformed (result
+unconstrained), U-PLIT's trusted text; Tokens::with_reservation / TokenReservation are external items (used only by parse_statement,
+where rule PS2 replaces them by ps_reserve / ps_release generated from their real bodies).
 Imported and extended (clauses appended): contracts/u_loc.vc, contracts/u_plit.vc; spec/u_plit_spec.rs and U-PLIT's type extraction."""
 import os
 import re
@@ -42,7 +44,25 @@ def extend(u, key, section, lines):
 STREAM = '[C13.pspan.cursor_stays_well_formed] stream_wf(*old(%s)) ==> stream_wf(*final(%s)),'
 
 
+EXPR = ('parse_expression', 'parse_addition', 'parse_rest_of_bitwise_expression', 'parse_rest_of_bitshift_operation', 'parse_multiplication',
+        'parse_singular_expression', 'parse_unary_expression', 'parse_primary_expression', 'parse_arguments', 'parse_rest_of_array',
+        'parse_body_of_structural', 'parse_addressed_reference', 'parse_reference', 'parse_rest_of_reference',
+        'parse_wellformed_type', 'parse_inner_type', 'parse_comparison', 'parse_rest_of_block', 'parse_statement')
+ASSUMED = ('parse_statement',)
+HERE = tuple(f for f in EXPR if f not in ('parse_primary_expression', 'parse_rest_of_array') + ASSUMED)
+
+
+def externalize(c):
+    """real signature and text, external body: the function's contract is ASSUMED in this unit (and proved in the sister unit)"""
+    c.loops, c.inserts, c.body_prefix, c.closures = [], [], [], []
+    c.attrs = ['#[verifier::external_body]']
+
+
 def build(u):
+    build_with(u, HERE)
+
+
+def build_with(u, verified):
     u.load_contracts('contracts/u_pspan.vc')
     u.notes += [
         'precondition of every parse function: stream_wf = every token location is a forward span AND the spans are ordered along the stream (what U-LEXA proves of lex())',
@@ -52,7 +72,10 @@ def build(u):
         'a bit cast `cast e` obeys the uniform rule (start, file, line and column of the `cast` keyword): clause cast_spans_from_its_keyword_to_its_type; the first version of this unit pinned the old behaviour (operand line) as a finding, which was a genuine violation and is repaired in the repository (ed22e30)',
         'rule PS1 (units/u_pspan_rules.py): a guarded `match peek(tokens) { Some(t) if G => A, _ => B }` has its guard hoisted (the verifier keeps the reborrow alive over the guarded match)',
         'parse_rest_of_bitwise_expression is verified with loop_isolation(false): its by-value parameter `expression` is reassigned in the loop and the postcondition speaks of its initial value',
-        'in this unit parse_unary_expression carries the location clauses only; its C09 literal clauses (which rest on those of parse_primary_expression) stay with U-PLIT',
+        'parse_unary_expression and parse_primary_expression carry the location clauses only here; their C09 literal clauses stay with U-PLIT (same text)',
+        'statements: `if`, `loop`, `goto`, `var` and assignments are located by their FIRST token only (sloc); a block by `{` .. `}`; a label by name and colon; a call statement by its name',
+        'no reservation is pending when a statement starts (precondition) and after a statement was parsed successfully; after an Err nothing is claimed about the reservation',
+        'NOT pinned by the uniform contract: the END of a node (only bounded: a call is located by its name), e.g. a parenthesised expression located before its closing parenthesis is consumed is not detected',
         'Err: one of UnexpectedEndOfFile / Lexical / UnexpectedToken / MaximumParseDepthExceeded, a forward span that does not end after the last lexed token; '
         'UnexpectedEndOfFile: location == last_location == location of the LAST token of the file; at the cursor (consume / extract / extract_identifier) '
         'every other error is located exactly at the offending token',
@@ -71,6 +94,8 @@ def build(u):
         extend(u, 'fn ' + f, 'ensures', [
             STREAM % ('tokens', 'tokens'),
             '[C13.pspan.one_token_is_taken] (old(tokens).tokens@.len() > 0 ==> took(*old(tokens), *final(tokens), 1) && taken(*old(tokens), *final(tokens)) == 1) && (old(tokens).tokens@.len() == 0 ==> took(*old(tokens), *final(tokens), 0)),',
+            '[C13.pspan.error_is_located_in_the_lexed_text] stream_wf(*old(tokens)) && r is Err ==> err_at(*old(tokens), r->Err_0),',
+            '[C13.pspan.cursor_reports_only_end_of_file_lexical_or_unexpected_token] r is Err ==> r->Err_0 is UnexpectedEndOfFile || r->Err_0 is Lexical || r->Err_0 is UnexpectedToken,',
             '[C13.pspan.error_points_at_the_offending_token] r is Err && old(tokens).tokens@.len() > 0 ==> !(r->Err_0 is UnexpectedEndOfFile) && perr(r->Err_0) && perr_loc(r->Err_0) == next_location(*old(tokens)),',
             '[C13.pspan.end_of_file_points_at_the_last_token] old(tokens).tokens@.len() == 0 ==> r->Err_0 is UnexpectedEndOfFile && perr_loc(r->Err_0) == old(tokens).last_location'
             ' && r->Err_0->UnexpectedEndOfFile_last_location == old(tokens).last_location,'])
@@ -80,12 +105,13 @@ def build(u):
     for f, rank in (('parse_unary_expression', 7),):
         extend(u, 'fn ' + f, 'requires', ['[C13.pspan.token_locations_are_ordered_forward_spans] ordered(old(tokens).tokens@),'])
         extend(u, 'fn ' + f, 'decreases', ['old(tokens).tokens@.len(), %dint' % rank])
-    # parse_primary_expression: NOT verified in this unit (its body with the uniform location clauses exhausts the resource limit; see u.notes):
-    # real text, external body, the uniform contract ASSUMED.  U-PLIT keeps verifying the same text under its C09 literal clauses.
     cp = u.contracts['fn parse_primary_expression']
-    cp.clauses = [('requires', ['stream_wf(*old(tokens)),']), ('ensures', UNI)]
-    cp.loops, cp.inserts, cp.body_prefix, cp.closures = [], [], [], []
-    cp.attrs = ['#[verifier::external_body]']
+    # the C09 literal clauses of U-PLIT stay with U-PLIT (verified there on the same text); here the function carries the location clauses
+    cp.clauses = [('requires', ['[C13.pspan.token_locations_are_ordered_forward_spans] stream_wf(*old(tokens)),']),
+                  ('ensures', ['tokens_wf(*final(tokens)),', 'r is Ok ==> expr_wf(r->Ok_0),'] + UNI),
+                  ('decreases', ['old(tokens).tokens@.len(), 6int'])]
+    if 'parse_primary_expression' in verified:
+        primary_hints(cp)
     cu = u.contracts['fn parse_unary_expression']
     # the C09 literal clauses of parse_unary_expression rest on those of parse_primary_expression: they stay with U-PLIT
     cu.clauses = [(sec, (['tokens_wf(*final(tokens)),', 'r is Ok ==> expr_wf(r->Ok_0),'] + UNI)
@@ -93,6 +119,8 @@ def build(u):
     cu.inserts = [x for x in cu.inserts if not any('theorem_' in l for l in x[3])]
     cu.body_prefix.insert(0, '\tbroadcast use lemma_took_trans;')
     emit_types(u)
+    for it in ('struct Comparison', 'struct Else', 'enum Statement', 'struct Block'):
+        u.emit(C, it, derive_drop=['Clone'])
     u.emit(P, 'const MAX_ADDRESS_DEPTH')
     u.emit(P, 'const MAX_REFERENCE_DEPTH')
     u.emit(P, 'struct Tokens', pub_fields=True)
@@ -100,6 +128,18 @@ def build(u):
     u.include('spec/u_pspan_spec.rs', kind='spec')
     u.emit(L, 'impl Location', only=['combined_with'], rules=[rules.r21_cmp_minmax])
     u.emit(P, 'impl Tokens', only=['pop_front', 'start_location_span', 'location_of_span'])
+    # Tokens::with_reservation / TokenReservation (a guard holding `&mut Tokens`, with AsMut and Drop): only parse_statement uses them; they are
+    # emitted as EXTERNAL items (real text, ignored by the verifier) so that the external body of parse_statement compiles
+    ext = lambda t: '#[verifier::external]\n' + t
+    u.emit(P, 'struct TokenReservation', pre=ext)
+    u.emit(P, "impl<'a> AsMut<Tokens> for TokenReservation<'a>", pre=ext)
+    u.emit(P, "impl<'a> Drop for TokenReservation<'a>", pre=ext)
+    u.emit(P, 'impl Tokens', only=['with_reservation'], pre=ext)
+    if 'parse_statement' in verified:
+        src = u.source(P)
+        wr = [ch for ch in src.find('impl Tokens').children if ch.kind == 'fn' and ch.name == 'with_reservation'][0]
+        u.raw('//@prelude generated from Tokens::with_reservation and Drop::drop of TokenReservation (rule PS2)\n'
+              + PR.reservation_methods(u.clean(wr.text), src.find("impl<'a> Drop for TokenReservation<'a>").text) + '//@end')
     u.emit(P, 'impl Token')
     u.emit(P, 'fn peek')
     u.emit(P, 'fn consume')
@@ -113,5 +153,44 @@ def build(u):
     u.emit(C, 'impl Expression', only=['location'])
     for f in ('parse_expression', 'parse_addition', 'parse_rest_of_bitwise_expression', 'parse_rest_of_bitshift_operation', 'parse_multiplication',
               'parse_singular_expression', 'parse_unary_expression', 'parse_primary_expression', 'parse_arguments', 'parse_rest_of_array',
-              'parse_body_of_structural', 'parse_addressed_reference', 'parse_reference', 'parse_rest_of_reference'):
-        u.emit(P, 'fn ' + f, rules=[PR.ps1_hoist_peek_guard])
+              'parse_body_of_structural', 'parse_addressed_reference', 'parse_reference', 'parse_rest_of_reference',
+              'parse_wellformed_type', 'parse_inner_type', 'parse_comparison', 'parse_rest_of_block', 'parse_statement'):
+        if f not in verified:
+            externalize(u.contracts['fn ' + f])
+        u.emit(P, 'fn ' + f, rules=[PR.ps1_hoist_peek_guard] + ([PR.ps2_reservation] if f in verified else []))
+
+
+def primary_hints(cp):
+    """ghost support of parse_primary_expression under the uniform contract (U-PSPAN2): the quantified definitions are hidden in the body
+    (they make the many-armed function exhaust the resource limit) and every arm composes its callee's contract with the one token taken
+    by `extract` through lemmas of spec/u_pspan_spec.rs"""
+    cp.body_prefix = ['\thide(ordered); hide(tokens_wf);', '\tlet ghost t0 = *tokens;', '\tlet ghost s = t0.tokens@;', '\tlet ghost res = t0.reserved_token;', '\tproof { lemma_stream_head(t0); }']
+    for lc in cp.loops:
+        lc.clauses = [('invariant', [
+            'tokens.reserved_token == res, s.len() >= 1, s == t0.tokens@, stream_wf(t0), stream_wf(*tokens), took(t0, *tokens, 1), forward(location),',
+            '[C13.pspan.string_literal_spans_its_run] location.span.start == s[0].location.span.start && s[0].location.span.end <= location.span.end <= tokens.last_location.span.end'
+            ' && same_line(location, s[0].location),',
+            'tokens.tokens@.len() > 0 ==> tokens.last_location.span.start <= first_loc(*tokens).span.start && tokens.last_location.span.end <= first_loc(*tokens).span.end,',
+            'forall|e: Error| #[trigger] err_at(*tokens, e) ==> err_at(t0, e),']),
+            ('decreases', ['tokens.tokens@.len()'])]
+    cp.inserts = []
+
+    def hint(where, nth, anchor, *lines):
+        cp.inserts.append((where, nth, anchor, list(lines)))
+    hint('after', 0, 'let (token, location) = extract("Expected literal or identifier.", tokens)?;',
+         '\tlet ghost t1 = *tokens;',
+         '\tproof { lemma_first_taken(t0, t1); }')
+    COMP = '\t\t\tproof { lemma_rest_taken(t0, t1, *tokens, %d); }'
+    hint('after', 0, 'let arguments = parse_arguments(tokens)?;', COMP % 2)
+    hint('after', 1, 'let arguments = parse_arguments(tokens)?;', COMP % 2)
+    hint('after', 0, 'let members = parse_body_of_structural(tokens)?;', COMP % 2)
+    hint('after', 0, 'parse_rest_of_reference(name, location, tokens)?;', COMP % 0)
+    hint('after', 0, 'let reference = parse_addressed_reference(location, tokens)?;', COMP % 1, '\t\t\tlet ghost t2 = *tokens;')
+    hint('after', 0, 'let location_of_op = tokens.last_location.clone();', '\t\t\t\tlet ghost t3 = *tokens;',
+         '\t\t\t\tproof { lemma_rest_taken(t0, t2, t3, 1); }')
+    hint('after', 0, 'let offset = parse_expression(tokens)?;', '\t\t\t\tproof { lemma_rest_taken(t0, t3, *tokens, 1); }')
+    hint('after', 0, 'let array = parse_rest_of_array(array, tokens)?;', COMP % 1)
+    hint('after', 0, 'let inner = parse_expression(tokens)?;', COMP % 1, '\t\t\tlet ghost t2 = *tokens;')
+    hint('after', 0, 'consume(Token::ParenRight, tokens)?;', '\t\t\tproof { lemma_rest_taken(t0, t2, *tokens, 1); }')
+    hint('before', 0, 'let (token, extra_location) = extract("", tokens)?;', '\t\t\t\tlet ghost before = *tokens;')
+    hint('after', 0, 'let (token, extra_location) = extract("", tokens)?;', '\t\t\t\tproof { lemma_rest_taken(t0, before, *tokens, 1); }')
